@@ -190,11 +190,11 @@ def one(prog, rep, cls, comb):
         return None
     pe_st = vec_st = None
     m = Lc(mname)
-    forms = (("bin", "/", ("call", ("attr", m, "sum"), (), ()), ("attr", m, "size")),
-             ("bin", "/", ("call", G("numpy.sum"), (m,), ()), ("attr", m, "size")),
+    forms = (("bin", "/", ("call", G("numpy.sum"), (m,), ()), ("attr", m, "size")),
              ("bin", "/", ("call", G("numpy.count_nonzero"), (m,), ()), ("attr", m, "size")),
-             ("call", G("numpy.mean"), (m,), ()), ("call", ("attr", m, "mean"), (), ()),
-             ("bin", "/", ("call", ("attr", m, "sum"), (), ()), ("call", G("len"), (m,), ())))
+             ("call", G("numpy.mean"), (m,), ()),
+             ("bin", "/", ("call", G("numpy.sum"), (m,), ()), ("call", G("len"), (m,), ())),
+             ("bin", "/", ("call", G("numpy.count_nonzero"), (m,), ()), ("call", G("len"), (m,), ())))
     for st in body:
         if isinstance(st, ast.Assign) and isinstance(st.targets[0], ast.Name):
             if bs.term(st.value, st) in forms:
@@ -462,7 +462,7 @@ def one(prog, rep, cls, comb):
                 if o_ is not None and o_[2] and o_[0] == V(comp):
                     lim = o_[1]
                     lim = bf.name(lim[1], ifx[0], {}) if lim[0] == "local" else lim
-                    for mx in (("call", G("max"), (col,), ()), ("call", G("numpy.max"), (col,), ()), ("call", ("attr", col, "max"), (), ())):
+                    for mx in (("call", G("max"), (col,), ()), ("call", G("numpy.max"), (col,), ())):
                         if algebra.same(lim, ("bin", "*", ("const", 1.1), mx)):
                             return True
                 return False
